@@ -54,6 +54,8 @@ def call_method(eng, bm, args, kwargs, node):
         return dict_method(eng, bm, obj, name, args, kwargs, node)
     if isinstance(obj, SDict):
         return sdict_method(eng, bm, obj, name, args, kwargs, node)
+    if type(obj).__name__ == "ColView" and name == "reshape":
+        return obj
     if isinstance(obj, NArr):
         return narr_method(eng, bm, obj, name, args, kwargs, node)
     if isinstance(obj, (str, z3.SeqRef)):
